@@ -139,6 +139,10 @@ def type_of(interp, v):
 
 def compare(interp, op, a, b, text=''):
     if isinstance(op, (ast.Is, ast.IsNot)):
+        for x, y in ((a, b), (b, a)):
+            if isinstance(x, Atom) and x.op == 'group' and getattr(x, 'optional', False) and y.tag == 'none':
+                # an optional group is None exactly when it did not take part in the match
+                return Atom('took-part' if isinstance(op, ast.IsNot) else 'absent', [x], 'bool')
         r = identical(interp, a, b, text)
         return Const(r if isinstance(op, ast.Is) else (not r))
     if isinstance(op, (ast.In, ast.NotIn)):
@@ -181,6 +185,10 @@ def contains(interp, container, item, text=''):
             if k(kk) == k(item):
                 return True
         if is_unknown(item) or isinstance(item, (Sym, Atom)):
+            if container.pairs and all(isinstance(kk, Const) for kk, _ in container.pairs) and item.tag in ('str', None) and isinstance(item, (Sym, Atom)):
+                # the same decision a subscript with this key makes: `k in d` followed by `d[k]` is one lookup, not two
+                alts = ['<missing>'] + [repr(kk) for kk, _ in container.pairs]
+                return interp.decide('%r is key' % (item,), alts, ('dict-key', item)) != '<missing>'
             if any(isinstance(kk, Const) for kk, _ in container.pairs) and item.tag in ('str', None):
                 return interp.decide('%r in dict' % (item,), [True, False])
         return False
@@ -241,6 +249,15 @@ def dt_record_compare(interp, name, a, b, text):
     return Const(name in ('eq', 'le', 'ge'))
 
 
+def _field_compares(dflt):
+    """Does a dataclass field declared with this default expression take part in the generated __eq__?  (field(compare=False) does not.)"""
+    if isinstance(dflt, ast.Call) and (isinstance(dflt.func, ast.Name) and dflt.func.id == 'field' or isinstance(dflt.func, ast.Attribute) and dflt.func.attr == 'field'):
+        for kw in dflt.keywords:
+            if kw.arg == 'compare' and isinstance(kw.value, ast.Constant):
+                return bool(kw.value.value)
+    return True
+
+
 def rich_compare(interp, name, a, b, text='', pure=False):
     # abstract date-time records (component-wise objects used by the calendar rules): compared through their symbol
     if isinstance(a, Obj) and isinstance(b, Obj) and '<sym>' in a.attrs and '<sym>' in b.attrs:
@@ -257,6 +274,20 @@ def rich_compare(interp, name, a, b, text='', pure=False):
             if not same:
                 return Const(interp.truth(rich_compare(interp, strict, x, y, text, pure), '%r %s %r' % (x, strict, y)))
         return Const(name in ('le', 'ge'))
+    # @dataclass records of one class without an __eq__ of their own: the generated one compares the fields that take part in comparisons
+    if isinstance(a, Obj) and isinstance(b, Obj) and name in ('eq', 'ne') and a.cls.module is not None and a.cls.node is b.cls.node \
+            and not interp.get_method(a, '__eq__'):
+        rec = interp._record_class(a.cls)
+        if rec and rec[0] == 'dataclass':
+            same = True
+            for fname, dflt in rec[1]:
+                if not _field_compares(dflt):
+                    continue
+                r = rich_compare(interp, 'eq', a.attrs.get(fname), b.attrs.get(fname), text, pure)
+                if not interp.truth(r, '%r == %r' % (a.attrs.get(fname), b.attrs.get(fname))):
+                    same = False
+                    break
+            return Const(same == (name == 'eq'))
     # dunder dispatch on package objects
     if isinstance(a, Obj):
         m = interp.get_method(a, CMP_DUNDER[name])
@@ -463,6 +494,11 @@ def _aff_norm(r):
 
 
 def arith(interp, name, a, b):
+    # a python bool in arithmetic with a number is the integer 0 / 1
+    if isinstance(a, Const) and isinstance(a.value, bool) and (isinstance(b, Aff) or b.tag in ('int', 'float')) and name in BIN_DUNDER:
+        a = Const(int(a.value))
+    if isinstance(b, Const) and isinstance(b.value, bool) and (isinstance(a, Aff) or a.tag in ('int', 'float')) and name in BIN_DUNDER:
+        b = Const(int(b.value))
     r = aff_arith(interp, name, a, b)
     if r is not None:
         return _aff_norm(r)
@@ -512,6 +548,11 @@ def arith(interp, name, a, b):
     if name == 'mul' and ka == 'str' and kb == 'num':
         return Atom('repeat', [a, b], 'str')
     if name == 'mod' and ka == 'str':
+        if isinstance(a, Const) and (isinstance(b, Const) or (isinstance(b, ListV) and b.kind == 'tuple' and all(isinstance(i, Const) for i in b.items))):
+            try:        # constant folding of %-formatting on constants
+                return Const(a.value % (b.value if isinstance(b, Const) else tuple(i.value for i in b.items)))
+            except (TypeError, ValueError) as e_:
+                raise Raised(Exc(type(e_).__name__, str(e_)))
         return Atom('format', [a, b], 'str')
     if name == 'add' and ka in ('list', 'tuple') and kb == ka:
         return Sym(ka, 'concat(%r,%r)' % (a, b))
@@ -615,6 +656,8 @@ def min_len(v):
     if isinstance(v, Atom):
         if v.op in ('hex', 'bin', 'oct') and len(v.args) == 1:
             return 3 + (1 if False else 0)
+        if v.op == 'format' and len(v.args) == 2 and isinstance(v.args[0], Const) and v.args[0].value in ('%X', '%x', '%o', '%d', '%i'):
+            return 1
         if v.op == 'slice' and len(v.args) == 4:
             base, lo, hi, st = v.args
             none = lambda x: x is None or (isinstance(x, Const) and x.value is None)
@@ -1038,6 +1081,17 @@ def call_builtin(interp, name, args, kwargs):
         r = aff_compare(interp, 'ge', args[0], args[1], '%s(%r, %r)' % (name, args[0], args[1]))
         first_is_max = interp.truth(r)
         return args[0] if (first_is_max == (name == 'max')) else args[1]
+    if name in ('min', 'max') and kwargs.get('key') is not None and not (isinstance(kwargs['key'], Const) and kwargs['key'].value is None) \
+            and not (set(kwargs) - set(['key', 'default'])):
+        # python's scan: the first item whose key is strictly smaller (larger) than every earlier one wins - ties keep the earlier item
+        items = _drain(interp, args[0]) if len(args) == 1 else list(args)
+        if items and len(items) <= 3 and not any(isinstance(i, Splice) for i in items):
+            keys = [interp.call(kwargs['key'], [i]) for i in items]
+            best, bkey = items[0], keys[0]
+            for it_, k_ in zip(items[1:], keys[1:]):
+                if interp.truth(rich_compare(interp, 'lt' if name == 'min' else 'gt', k_, bkey, name), '%s: %r beats %r' % (name, k_, bkey)):
+                    best, bkey = it_, k_
+            return best
     if name in ('min', 'max'):
         if len(args) == 1:
             items = _drain(interp, args[0])
@@ -1067,6 +1121,26 @@ def call_builtin(interp, name, args, kwargs):
             if len(r) <= 200:
                 return ListV([Const(i) for i in r])
         return Sym('list', 'range(%s)' % ', '.join(repr(a) for a in args))
+    if name == 'zip' and len(set(id(a) for a in args if isinstance(a, GenV))) < len([a for a in args if isinstance(a, GenV)]):
+        # the same iterator given more than once (zip(it, it): consecutive pairs): the sources share their position
+        sources = [a if isinstance(a, GenV) else GenV(iter_items(interp, a)) for a in args]
+        if any(isinstance(i, Splice) for s_ in sources for i in s_.items[s_.pos:]):
+            interp.imprecise('zip over a run of unknown length')
+            return GenV([Splice('zip')])
+        rows, tail = [], None
+        while tail is None:
+            row = []
+            for s_ in sources:
+                if s_.pos >= len(s_.items):
+                    tail, s_.tail = s_.tail, None
+                    row = None
+                    break
+                row.append(s_.items[s_.pos])
+                s_.pos += 1
+            if row is None:
+                break
+            rows.append(ListV(row, 'tuple'))
+        return GenV(rows, tail)
     if name == 'zip':
         lists = [iter_items(interp, a) for a in args]
         if any(any(isinstance(i, Splice) for i in l) for l in lists):
@@ -1289,7 +1363,42 @@ def call_builtin(interp, name, args, kwargs):
             return unaryop(interp, ast.USub(), args[0])
         if o in ('not_',):
             return Const(not interp.truth(args[0]))
+        if o in ('attrgetter', 'itemgetter') and args and all(isinstance(a, Const) for a in args):
+            names = [a.value for a in args]
+
+            def getter(it, a2, kw, names=names, o=o):
+                def one(nm):
+                    if o == 'itemgetter':
+                        return index_value(it, a2[0], Const(nm))
+                    v = a2[0]
+                    for part in nm.split('.'):
+                        v = it.getattr(v, part)
+                    return v
+                vals = [one(nm) for nm in names]
+                return vals[0] if len(vals) == 1 else ListV(vals, 'tuple')
+            nm_ = 'hx:operator.%s:%d' % (o, len(interp.extern))
+            interp.extern[nm_] = getter
+            return Builtin(nm_)
         raise Unmodelled(name)
+    if name == 'math.isclose' and len(args) == 2:
+        for a in args:
+            if a.tag is not None and (a.tag not in NUMERIC or a.tag == 'complex'):
+                raise Raised(Exc('TypeError', 'must be real number, not %s' % a.tag))
+        if all(isinstance(a, Const) for a in args) and not kwargs:
+            import math as _math
+            return Const(_math.isclose(args[0].value, args[1].value))
+        # a comparison with a tolerance: an opaque decision, named so that the rules can tell it from an exact comparison
+        return Atom('isclose', [args[0], args[1], kwargs.get('rel_tol', Const(1e-09)), kwargs.get('abs_tol', Const(0.0))], 'bool')
+    if name == 'math.sumprod' and len(args) == 2:
+        xs, ys = iter_items(interp, args[0]), iter_items(interp, args[1])
+        if any(isinstance(i, Splice) for i in xs + ys):
+            raise Unmodelled('math.sumprod over a run of unknown length')
+        if len(xs) != len(ys):
+            raise Raised(Exc('ValueError', 'Inputs are not the same length'))
+        acc = Const(0)
+        for x_, y_ in zip(xs, ys):
+            acc = arith(interp, 'add', acc, arith(interp, 'mul', x_, y_))
+        return acc
     if name.startswith('math.'):
         fn = name.split('.', 1)[1]
         for a in args:
@@ -1408,6 +1517,21 @@ def call_builtin(interp, name, args, kwargs):
     if name in ('re.UNICODE', 're.IGNORECASE', 're.I', 're.U', 're.MULTILINE', 're.DOTALL'):
         import re as _re
         return Const(int(getattr(_re, short)))
+    if name in ('re.sub', 're.subn', 're.split', 're.findall') and len(args) >= 2 and not (set(kwargs) - set(['count', 'flags', 'maxsplit'])) and \
+            all(isinstance(a, Const) and isinstance(a.value, (str, int)) for a in list(args) + list(kwargs.values())):
+        import re as _re        # constant folding of a pure stdlib function on constants
+        try:
+            r = getattr(_re, short)(*[a.value for a in args], **dict((kk, vv.value) for kk, vv in kwargs.items()))
+        except _re.error:
+            raise Raised(Exc('ValueError', 'bad regex'))
+        except TypeError:
+            raise Raised(Exc('TypeError', 're.%s' % short))
+        if isinstance(r, str):
+            return Const(r)
+        if isinstance(r, list) and all(isinstance(x, str) for x in r):
+            return ListV([Const(x) for x in r])
+        if isinstance(r, tuple) and len(r) == 2 and isinstance(r[0], str):
+            return ListV([Const(r[0]), Const(r[1])], 'tuple')
     if name.startswith('re.'):
         return Top('re result', ignorance=False)
     if short in EXC_BASES:
@@ -1724,8 +1848,59 @@ def regex_method(interp, rv, attr, args, kwargs):
         raise Raised(Exc('TypeError', 'expected string or bytes-like object'))
     if interp.decide('%s %s %r' % (rv.pattern, attr, subj), [True, False], None):
         n = cre.groups
-        return MatchV(rv, subj, [Atom('group', [subj, Const(i)], 'str') for i in range(n + 1)], dict(cre.groupindex))
+        groups = [Atom('group', [subj, Const(i)], 'str') for i in range(n + 1)]
+        for i in _optional_groups(rv.pattern, rv.flags):
+            if i <= n:
+                groups[i].optional = True       # the group may not take part in a match: its value is then None
+        return MatchV(rv, subj, groups, dict(cre.groupindex))
     return Const(None)
+
+
+_OPTIONAL_GROUPS = {}
+
+
+def _optional_groups(pattern, flags=0):
+    """Numbers of the capture groups that need not take part in a successful match (inside ?, *, {0,n} or an alternative)."""
+    key = (pattern, flags)
+    if key in _OPTIONAL_GROUPS:
+        return _OPTIONAL_GROUPS[key]
+    try:
+        import re._parser as sp
+    except ImportError:         # pragma: no cover
+        import sre_parse as sp
+    out = set()
+    try:
+        tree = sp.parse(pattern, flags)
+    except Exception:
+        _OPTIONAL_GROUPS[key] = out
+        return out
+
+    def walk(x, optional):
+        if isinstance(x, sp.SubPattern):
+            for it in x.data:
+                walk(it, optional)
+        elif isinstance(x, tuple) and len(x) == 2:
+            op, av = str(x[0]), x[1]
+            if op in ('MAX_REPEAT', 'MIN_REPEAT', 'POSSESSIVE_REPEAT'):
+                walk(av[2], optional or av[0] == 0)
+            elif op == 'BRANCH':
+                for alt in av[1]:
+                    walk(alt, True if len(av[1]) > 1 else optional)
+            elif op == 'SUBPATTERN':
+                if av[0] is not None and optional:
+                    out.add(av[0])
+                walk(av[3], optional)
+            elif op in ('ASSERT', 'ASSERT_NOT'):
+                walk(av[1], optional)
+            elif op == 'GROUPREF_EXISTS':
+                for part in av[1:]:
+                    if part is not None:
+                        walk(part, True)
+            elif op == 'ATOMIC_GROUP':
+                walk(av, optional)
+    walk(tree, False)
+    _OPTIONAL_GROUPS[key] = out
+    return out
 
 
 def list_method(interp, base, attr, args, kwargs):
@@ -1782,4 +1957,11 @@ def list_method(interp, base, attr, args, kwargs):
     if attr == 'add':
         base.items.append(args[0])
         return Const(None)
+    if attr == 'remove' and len(args) == 1 and not base.has_splice():
+        # the first item equal to the argument goes
+        for i_, it_ in enumerate(base.items):
+            if it_ is args[0] or interp.truth(rich_compare(interp, 'eq', it_, args[0], 'remove', True), '%r == %r' % (it_, args[0])):
+                del base.items[i_]
+                return Const(None)
+        raise Raised(Exc('ValueError', 'list.remove(x): x not in list'))
     raise Unmodelled('list method %s' % attr)
